@@ -65,11 +65,14 @@ def main() -> int:
     for path in ([] if os.environ.get("VERIF_NO_REGRESSIONS") else common.regression_files(prop)):
         doc = common.load_replay(path)
         nreg += 1
-        try:
-            mod.replay(doc["case"])
-        except common.Violation as v:
-            stats.violations.append({"case": common.canonical(doc["case"]), "msg": f"regression {os.path.basename(path)}: {v}",
-                                     "clause": v.clause, "path": path})
+        # each replay runs in a forked child: replays may monkey-patch library modules (the simulators replace zmq / the shm client),
+        # and the shards forked afterwards -- some of which start REAL clusters -- must inherit an untouched library
+        kind, msg, clause = common.run_isolated(mod.replay, doc["case"])
+        if kind == "violation":
+            stats.violations.append({"case": common.canonical(doc["case"]), "msg": f"regression {os.path.basename(path)}: {msg}",
+                                     "clause": clause, "path": path})
+        elif kind == "error":
+            raise common.HarnessError(f"regression replay {os.path.basename(path)} failed:\n{msg}")
     stats.extra["regression_replays"] = nreg
 
     # 2. generated search
